@@ -175,9 +175,14 @@ end merge
 /-! ### histories -/
 
 /-- row `q` is row `p` with at most `subtomo_id` / `object_id` rewritten; a missing value may have
-been filled by `Motl.load` -/
+been replaced by `fill`.  With `fill` = the identity this is the LITERAL reading of "no other field
+has changed" (`Literal`); which operations are allowed a non-trivial `fill` is `Op.mayFill` below. -/
 def Unchanged (fill : α → α) (p q : Particle α) : Prop :=
   ∀ f : Field, f ≠ Field.subtomo_id → f ≠ Field.object_id → q.get f = p.get f ∨ q.get f = fill (p.get f)
+
+/-- "no other field has changed", literally: every field other than the two id fields is the same cell -/
+def Literal (p q : Particle α) : Prop :=
+  ∀ f : Field, f ≠ Field.subtomo_id → f ≠ Field.object_id → q.get f = p.get f
 
 
 /-- one operation of a history; merging operations carry the other input lists (`before`/`after`
@@ -200,6 +205,22 @@ def Op.sources : Op α → List (Particle α)
   | .mergeRenumber b a _ => (b.map (·.2)).flatten ++ (a.map (·.2)).flatten
   | .mergeDropDup b a _ => (b.map (·.2)).flatten ++ (a.map (·.2)).flatten
   | _ => []
+
+/-- the ONLY operations that may replace a missing value (they pass an operand through
+`Motl.load(DataFrame)` → `fillna`): `get_motl_intersection` (always: both operands are re-loaded from
+their frames) and the two merges when at least one input is handed over as a bare DataFrame.
+Selections (subset / remove / split / drop-duplicates) and the renumberings must return literal rows. -/
+def Op.mayFill : Op α → Bool
+  | .intersect _ _ => true
+  | .mergeRenumber b a s => s || (b.any (·.1) || a.any (·.1))
+  | .mergeDropDup b a s => s || (b.any (·.1) || a.any (·.1))
+  | _ => false
+
+/-- what one operation may do to a missing value: `fill` if it re-loads a frame, nothing otherwise -/
+def opFill (fill : α → α) (op : Op α) : α → α := if op.mayFill then fill else (fun v => v)
+
+/-- what a whole history may do to a missing value: nothing unless one of its operations re-loads a frame -/
+def histFill (fill : α → α) (ops : List (Op α)) : α → α := if ops.any Op.mayFill then fill else (fun v => v)
 
 /-- pure selections: operations that only choose rows of the current list -/
 def Op.isSelection : Op α → Bool
